@@ -97,16 +97,16 @@ type Link struct {
 }
 
 type Rule struct {
-	ID     int      `json:"id"`
-	Phase  int      `json:"phase"`
-	Marker string   `json:"marker"`
-	Links  []Link   `json:"links"`
-	Status int      `json:"status"`
-	StatusLast bool `json:"statusLast"` // render status: after the other actions
-	Sev    int      `json:"sev"`
-	Tags   []string `json:"tags"`
-	Msg    string   `json:"msg"`
-	Log    string   `json:"log,omitempty"` // "", "log", "nolog", "auditlog", ...
+	ID         int      `json:"id"`
+	Phase      int      `json:"phase"`
+	Marker     string   `json:"marker"`
+	Links      []Link   `json:"links"`
+	Status     int      `json:"status"`
+	StatusLast bool     `json:"statusLast"` // render status: after the other actions
+	Sev        int      `json:"sev"`
+	Tags       []string `json:"tags"`
+	Msg        string   `json:"msg"`
+	Log        string   `json:"log,omitempty"` // "", "log", "nolog", "auditlog", ...
 }
 
 type Entry struct {
